@@ -116,6 +116,7 @@ def _node_class():
             self.log = []
             self.sent_remote = 0
             self.xsends = set()       # (time, own partition, destination partition, delay ns) of cross-partition emissions
+            self.is_cb = False        # a callback pseudo entity: never registered with a partition, reached through Event.once
 
         def handle_event(self, ev):
             t = ev.time.nanoseconds
@@ -129,7 +130,12 @@ def _node_class():
                 if peer.pid != self.pid:
                     self.sent_remote += 1
                     self.xsends.add((t, self.pid, peer.pid, when.nanoseconds - t))
-                out.append(Event(time=when, event_type=f"k{k2}", target=peer))
+                if peer.is_cb:
+                    # a local one-shot callback (Event.once -> CallbackEntity target): the callback runs the pseudo
+                    # entity's script (logs the firing, returns its emissions)
+                    out.append(Event.once(when, f"k{k2}", peer.handle_event))
+                else:
+                    out.append(Event(time=when, event_type=f"k{k2}", target=peer))
             return out
 
     _NODE = Node
@@ -214,7 +220,10 @@ def _snode_class():
                 if peer.pid != self.pid:
                     self.sent_remote += 1
                     self.xsends.add((t, self.pid, peer.pid, when.nanoseconds - t))
-                out.append(Event(time=when, event_type=f"k{k2}s{self.eid}", target=peer))
+                if peer.is_cb:
+                    out.append(Event.once(when, f"k{k2}s{self.eid}", peer.handle_event))
+                else:
+                    out.append(Event(time=when, event_type=f"k{k2}s{self.eid}", target=peer))
             return out
 
     _SNODE = SNode
@@ -290,6 +299,12 @@ class C05(core.Property):
             "w−1 / w / w+1 after the window end; tmr rules also in family stateful. "
             "start_time / duration (all families but invalid): 30 % of the cases start at S ∈ {1 ns, w/2+1, w, 3w+1, 7w, 1 s, 2.5–3.5 s, random} (all instants move by S), half of those with a finite end and 15 % of the "
             "epoch cases pass duration= instead of end_time= (to ParallelSimulation and to Simulation). "
+            "local one-shot callbacks (35 % of the linked cases of every family but tiex / timers / invalid): 1–3 (entity, kind) batches additionally contain Event.once events (CallbackEntity target) "
+            "placed before, between and after the batch's cross-partition and local events, delay 0 / 1 ns / w/2 / w / L; the callback is a pseudo entity (case key cb; an ordinary entity of the same partition for "
+            "the model) that logs its firing and emits to a local entity or across a link. "
+            "family wedge (5 %): explicit window ∈ {min−1 ns, min, min+1 ns, the decimal a derived minimum was meant to be, default}, minimum latency a decimal up to 5 s or a derived float (0.15−0.10, 0.7−0.4, 0.3−0.2, "
+            "random a−b) that truncates to one nanosecond less than its decimal; sender at the start instant using exactly the declared latency, local events of the destination exactly on the first window end; "
+            "a window above the minimum must be rejected, and a run that is accepted although the effective window exceeds an effective link minimum is a violation (par/invalid-configuration-accepted). "
             "Stateful transcripts carry the real delivery order (no canonicalisation) and the sender's partition of every delivery; the model assigns creation indices as the code does. "
             "non-trivial = at least one cross-partition event was exchanged; distinct = distinct case content")
     trusted_base = [
@@ -311,6 +326,10 @@ class C05(core.Property):
         "for handlers that are order-sensitive inside one timestamp the main clause is false of model and code alike (a cross-partition arrival is injected at the barrier and delivered after a local "
         "event of the same timestamp that sequentially comes later); family tiex hits it a few times per run; the order-sensitive rule is generated only for two single-entity partitions, where every "
         "tie inversion has the named form",
+        "Event.once / CallbackEntity targets are modelled as ordinary entities of the emitter's partition (the router treats them as always local; the harness never registers them with a partition "
+        "and records their firings itself)",
+        "derived float latencies (case key latf) are given to the model as their effective nanoseconds int(float·1e9); the generator keeps only values for which float order and nanosecond order of window "
+        "vs latency agree and whose nanoseconds survive the float round trip",
         "cancelled events (lazy deletion in Simulation._execute_until: popped and skipped, behind the strict-window peek guard) are modelled as ghost deliveries: the stateful entity's handler "
         "returns its state unchanged and emits nothing (ghost_is_silent), the ghost is removed from the printed log; it advances the model clock to its own time, which no later event can precede",
         "the stateful modes of the model (runs / judges) use coordLoopR + Part.initCtr (creation indices as in core/event.py, event_heap.py, Simulation.schedule at a barrier); the stateless modes keep "
@@ -363,8 +382,104 @@ class C05(core.Property):
 
     # ------------------------------------------------------------------ generation
     def generate(self, rng: random.Random, i: int, tier: str) -> dict:
+        if i % 20 == 13:
+            return self.gen_window_edge(rng, tier)
         case = self.generate0(rng, i, tier)
-        return case if case["family"] == "invalid" else self.with_start(case, rng)
+        if case["family"] == "invalid":
+            return case
+        return self.with_start(self.with_once(case, rng), rng)
+
+    def with_once(self, case, rng):
+        """local one-shot callbacks: in 35 % of the linked cases some handler batches additionally contain
+        `Event.once(...)` events (target: a CallbackEntity, always local) placed before, between and after the batch's
+        cross-partition and local events; the callback is a pseudo entity (listed in `cb`, never registered with a
+        partition) that logs its firing and emits to an ordinary entity, local or across a link"""
+        if not case["links"] or case["family"] in ("tiex", "timers") or rng.random() > 0.35:
+            return case
+        ents = case["ents"]
+        lat = {(a, b): l for a, b, l in case["links"]}
+        lmin = min(l[2] for l in case["links"])
+        w = trunc_ns(case["window"] if case["window"] is not None else lmin) or 1
+        cb = []
+        keys = sorted({(x[0], x[1]) for x in case["prog"] if ents[x[0]] != ents[x[3]]}) or sorted({(x[0], x[1]) for x in case["prog"]})
+        rng.shuffle(keys)
+        nreal = len(ents)
+        for (e, k) in keys[: rng.randint(1, 3)]:
+            h = len(ents)
+            ents.append(ents[e])
+            cb.append(h)
+            kk = k + 1
+            for _ in range(rng.choice([1, 1, 2])):
+                pos = [j for j, x in enumerate(case["prog"]) if x[0] == e and x[1] == k]
+                at = rng.choice(pos + [pos[-1] + 1, pos[-1] + 1]) if pos else len(case["prog"])
+                case["prog"].insert(at, [e, k, rng.choice([0, 0, 1, w // 2, w, lmin]), h, kk])
+            remote = [t for t in range(nreal) if ents[t] != ents[e] and (ents[e], ents[t]) in lat]
+            if remote and rng.random() < 0.4:
+                t = rng.choice(remote)
+                case["prog"].append([h, kk, trunc_ns(lat[(ents[e], ents[t])]) + rng.choice([0, 1, w]), t, kk + 1])
+            else:
+                t = rng.choice([x for x in range(nreal) if ents[x] == ents[e]])
+                case["prog"].append([h, kk, rng.choice([0, 1, w // 2, w]), t, kk + 1])
+        case["cb"] = cb
+        return case
+
+    def gen_window_edge(self, rng, tier):
+        """family wedge: explicit window sizes one nanosecond below / at / above the minimum link latency, where the
+        minimum is (a) a decimal number of nanoseconds up to 5 s (so that 1 ns is far below any relative float
+        tolerance) or (b) a *derived* float (0.15 − 0.10, 0.7 − 0.4, 0.3 − 0.2, …) that differs from the decimal window
+        (0.05, 0.3, 0.1) only in the last bits yet truncates to one nanosecond less.  A window above the minimum must be
+        rejected (ValueError); at or below it the run must agree with the sequential one — with a sender at the start
+        instant that uses exactly the declared latency and a local event of the destination exactly on the first
+        window end."""
+        case = None
+        for _ in range(50):
+            if rng.random() < 0.5:
+                x, y = rng.choice([(150_000_000, 100_000_000), (700_000_000, 400_000_000), (300_000_000, 200_000_000),
+                                   (rng.randrange(2, 999) * 1_000_000, rng.randrange(1, 500) * 1_000_000)])
+                if x <= y:
+                    continue
+                lf = x / 1e9 - y / 1e9
+                eff = int(lf * 1e9)
+                if eff <= 0 or trunc_ns(eff) != eff:
+                    continue
+                latf = {"0": [x, y]}
+                near = x - y            # the decimal the user thinks the latency is
+            else:
+                eff = rng.choice([1_000_000, 50_000_000, 2_000_000_000, 5_000_000_000, 1_234_567_891])
+                if trunc_ns(eff) != eff:
+                    continue
+                lf, latf, near = eff / 1e9, {}, eff
+            window = rng.choice([near, near, eff, eff + 1, eff - 1, near + 1, None])
+            if window is not None:
+                if window <= 0 or trunc_ns(window) != window:
+                    continue
+                # the configuration is valid iff window <= latency; make sure float order and nanosecond order agree
+                if (window / 1e9 > lf) != (window > eff):
+                    continue
+            case = dict(latf=latf, eff=eff, window=window)
+            break
+        if case is None:
+            case = dict(latf={}, eff=1_000_000, window=1_000_001)
+        eff, window, latf = case["eff"], case["window"], case["latf"]
+        w = window if window is not None else eff
+        ents = [0, 1] + ([1] if rng.random() < 0.3 else [])
+        links = [[0, 1, eff]]
+        if rng.random() < 0.5:
+            links.append([1, 0, eff * rng.choice([1, 2]) + rng.choice([0, 1])])
+        prog = [[0, 0, eff, 1, 1]]                      # exactly the declared latency
+        if latf and rng.random() < 0.5:
+            prog = [[0, 0, eff + rng.choice([0, 1]), 1, 1]]
+        if len(links) > 1 and rng.random() < 0.5:
+            prog.append([1, 1, links[1][2], 0, 2])
+        init = [[0, 0, 0], [w, 1, 2], [w, len(ents) - 1, 2]]
+        if rng.random() < 0.5:
+            init.append([rng.choice([1, w - 1, w + 1, 2 * w]), rng.randrange(len(ents)), 2])
+        ke = rng.choice([2, 3, 5])
+        end = rng.choice([None, ke * w, ke * w + 1])
+        out = dict(family="wedge", nparts=2, ents=ents, links=links, window=window, end=end, prog=prog, init=init, reps=1)
+        if latf:
+            out["latf"] = latf
+        return out
 
     def with_start(self, case, rng):
         """start_time / duration: 30 % of the cases start at S ≠ epoch (every instant of the case moves by S, so the window
@@ -855,6 +970,8 @@ class C05(core.Property):
             nodes = [Node(e, case["ents"][e], scripts[e]) for e in range(nent)]
         for x in case["prog"]:
             nodes[x[0]].peers[x[3]] = nodes[x[3]]
+        for h in case.get("cb", ()):
+            nodes[h].is_cb = True
         return nodes
 
     @staticmethod
@@ -878,8 +995,10 @@ class C05(core.Property):
         if not lg.isEnabledFor(logging.WARNING):
             lg.setLevel(logging.WARNING)
         try:
-            links = [PartitionLink(f"p{a}", f"p{b}", l / 1e9) for a, b, l in case["links"]]
-            parts = [SimulationPartition(name=f"p{i}", entities=[n for n in nodes if n.pid == i])
+            latf = case.get("latf", {})          # link index -> [x, y]: min_latency is the derived float x/1e9 - y/1e9
+            links = [PartitionLink(f"p{a}", f"p{b}", (latf[str(j)][0] / 1e9 - latf[str(j)][1] / 1e9) if str(j) in latf else l / 1e9)
+                     for j, (a, b, l) in enumerate(case["links"])]
+            parts = [SimulationPartition(name=f"p{i}", entities=[n for n in nodes if n.pid == i and not n.is_cb])
                      for i in range(case["nparts"])]
             kw = dict(links=links or None, max_workers=workers)
             if case["window"] is not None:
@@ -917,7 +1036,7 @@ class C05(core.Property):
             skw["duration"] = case["dur"] / 1e9
         elif end is not None:
             skw["end_time"] = Instant(end)
-        sim = Simulation(entities=nodes, **skw)
+        sim = Simulation(entities=[n for n in nodes if not n.is_cb], **skw)
         for t, e, k in case["init"]:
             sim.schedule(Event(time=Instant(t), event_type=f"k{k}", target=nodes[e]))
         sim.run()
@@ -975,9 +1094,11 @@ class C05(core.Property):
             body += ["emit " + " ".join(map(str, x)) for x in case["prog"]]
             w = "none" if case["window"] is None else str(case["window"])
             return (f"judge-err {case['nparts']} {w}", body + list(impl_out))
+        w = "none" if case["window"] is None else str(case["window"])
+        cfg = [f"link {a} {b} {l}" for a, b, l in case["links"]]
         if "sprog" in case:
-            return (f"judges {self._t(case['end'])}", [f"ent {e} {p}" for e, p in enumerate(case["ents"])] + list(impl_out))
-        return (f"judge {self._t(case['end'])}", list(impl_out))
+            return (f"judges {self._t(case['end'])} cfg {w}", cfg + [f"ent {e} {p}" for e, p in enumerate(case["ents"])] + list(impl_out))
+        return (f"judge {self._t(case['end'])} cfg {w}", cfg + list(impl_out))
 
     def nontrivial_key(self, case, impl_out):
         for line in impl_out:
@@ -1055,7 +1176,7 @@ class C05(core.Property):
             elif k < 0.95 and c["prog"] and c["init"]:
                 # a local delivery at the destination just before / at / after a cross arrival
                 cand = [(t + eff_delay(x), x[3]) for (t, e, kk) in c["init"] for x in c["prog"]
-                        if x[0] == e and x[1] == kk and ents[x[3]] != ents[e]]
+                        if x[0] == e and x[1] == kk and ents[x[3]] != ents[e] and x[3] not in c.get("cb", ())]
                 if cand:
                     arr, tgt = rng.choice(cand)
                     nxt = (arr // w + 1) * w
@@ -1071,7 +1192,7 @@ class C05(core.Property):
         m windows and an offset inside the window, one existing cross-partition emit is triggered again
         (its delay set to the link minimum) and its destination gets a local delivery near the arrival"""
         ents = c["ents"]
-        rem = [x for x in c["prog"] if (ents[x[0]], ents[x[3]]) in lat]
+        rem = [x for x in c["prog"] if (ents[x[0]], ents[x[3]]) in lat and x[0] not in c.get("cb", ())]
         if not rem:
             return
         x = rng.choice(rem)
@@ -1115,6 +1236,7 @@ THEOREMS: list[str] = [
     "HappyModel.C05.ruleHandler_commAt",
     "HappyModel.C05.ghost_is_silent",
     "HappyModel.C05.parallelRunFrom_spec",
+    "HappyModel.C05.judgeAccepted_none_iff",
     "HappyModel.C05.ruleHandlerL_eq",
     "HappyModel.C05.no_time_travel_current_false",
     "HappyModel.C05.idle_skip_safe",
